@@ -28,6 +28,9 @@ LEVEL = {
  "C07": ("exploration", "bounded-exhaustive enumeration of inputs x call histories (tree of all Next/Advance sequences, successor = replayed prefix + one call) on the implementation vs. a sorted-slice reference",
          "every postings set and exclusion set over N<=5/7 documents x chunk sizes x encodings (general, single-hit) x segment kinds x all detail-flag combinations x every maximal Next/Advance call sequence, ReplaceActual with every subset, and every ordered pair/triple of preallocation reuse over a 20-list family, is executed on the real iterator and compared call by call with a sorted slice; exhaustive within the bounds",
          "reference = sorted slice of the reference model's hits; only requested details are compared", "4 C07"),
+ "C08": ("exploration", "bounded-exhaustive enumeration of term sets x encodings histories x automata x key ranges on the implementation vs. independently computed acceptance",
+         "every subset of a 6-term universe x postings-size patterns x provenance (built / opened / merged once / merged twice) x 25 automata x every well-formed key range is enumerated on the real dictionary; terms, order, counts, Contains and Cardinality are compared with independently computed answers; the space is enumerated completely",
+         "acceptance oracles: Go strings/regexp and an edit-distance function; vellum's automata are trusted only as inputs", "4 C08"),
  "C01": ("exploration", "bounded-exhaustive input enumeration on the implementation vs. reference model",
          "every batch of a stated finite alphabet (cell menu per document x field, N<=3; column and chunk-boundary families) x chunk modes x both build tags is built by the real code and its complete term/postings content compared with an independent reference model; exhaustive within the bounds, no sampling",
          "reference model in harness/ref; inputs only inside the alphabet; Go map order not enumerable (semantic oracle)", "4 C01"),
